@@ -42,3 +42,23 @@ def validate_traces(ctx, specdir, module, cfg, trace_files, merged_name="traces.
     if not res.ok:
         raise NoVerdict("trace validation did not complete:\n%s" % (res.violation or "")[:3000])
     return recs, bad, res
+
+
+def race_env(ctx, tag):
+    """Environment for a -race driver: reports go to files, the driver keeps running."""
+    d = ctx.mkdir("race-" + tag)
+    return {"GORACE": "exitcode=0 log_path=%s/race" % d}, d
+
+
+def race_violations(d, what):
+    out = []
+    for f in sorted(os.listdir(d)):
+        txt = open(os.path.join(d, f), errors="replace").read()
+        n = txt.count("WARNING: DATA RACE")
+        if n:
+            frames = [l.strip() for l in txt.splitlines() if "go-internal/" in l or "/repo/" in l][:6]
+            out.append(dict(kind="data-race", what="the race detector reports %d data race(s) in %s" % (n, what),
+                            **{"class": "data-race|" + "|".join(sorted(set(re.sub(r"\(.*", "", fr) for fr in frames)))[:300]},
+                            input=dict(frames=frames), detail=txt[:1500]))
+            break
+    return out
